@@ -144,6 +144,12 @@ def prove_frame(S):
     S.guarded('frame of the replacement', lambda: _frame(S))
 
 
+def prove_atoms_of_the_pattern(S):
+    """C06 (atom clause): inserted atoms carry the pattern's charge, group and type, atoms taken over carry the pattern's type; type ids
+    resolve to the pattern's label / element / mass.  Same block, non-overlapping matches, shared atoms retained (replace_all off)."""
+    S.guarded('atoms taken over / inserted', lambda: _frame(S, mode='atoms'))
+
+
 def prove_self_replacement(S):
     """C08: the same block with the replacement pattern identical to the search pattern (and carrying no terms of its own)."""
     S.guarded('self-replacement', lambda: _frame(S, mode='self'))
@@ -268,6 +274,24 @@ def _frame(S, mode='frame'):
             out.append(('%s-refer-to-existing-atoms' % AM.PLURAL[kk], AM.all_in_range(hs[AM.PLURAL[kk]], 0, hs['positions'].length, 'fr_' + kk)))
         if mode != 'self':
             out += deletion_set_is_exact(D, k if z3.is_expr(k) else z3.IntVal(k))
+        if mode == 'atoms':
+            G = view['ghost_inserted']
+            pat, ck_, cv_, off0 = st['pat'], st['ck'], st['cv'], to_z3(st['offsets'][0])
+            mem_ck_ = mem_of(I, ck_)
+            r, j2, t2 = z3.Int('ar'), z3.Int('aj'), z3.Int('at')
+            g = z3.Select(G.cols[0], r)
+            kk_ = k if z3.is_expr(k) else z3.IntVal(k)
+            from_pattern = z3.And(g >= 0, g < pat['positions'].length, z3.Not(mem_ck_(g)),
+                                  z3.Select(hs['charges'].cols[0], r) == z3.Select(pat['charges'].cols[0], g),
+                                  z3.Select(hs['groups'].cols[0], r) == z3.Select(pat['groups'].cols[0], g),
+                                  z3.Select(hs['atom_types'].cols[0], r) == z3.Select(pat['atom_types'].cols[0], g) + off0)
+            ret = z3.Select(z3.Select(st['MI'], j2), z3.Select(cv_.cols[0], t2))
+            out += [('ghost/one-origin-per-atom', G.length == hs['positions'].length),
+                    ('inserted-atoms-carry-charge-group-type-of-a-replacement-only-pattern-atom',
+                     z3.ForAll([r], z3.Implies(z3.And(r >= 0, r < hs['positions'].length), z3.If(r < N, g == -1, from_pattern)), patterns=[z3.Select(G.cols[0], r)])),
+                    ('atoms-taken-over-carry-the-type-of-their-pattern-atom',
+                     z3.ForAll([j2, t2], z3.Implies(z3.And(j2 >= 0, j2 < kk_, t2 >= 0, t2 < ck_.length),
+                               z3.Select(hs['atom_types'].cols[0], ret) == z3.Select(pat['atom_types'].cols[0], z3.Select(ck_.cols[0], t2)) + off0), patterns=[ret]))]
         if mode == 'self':
             E1, E0 = hs['atom_type_elements'], old['atom_type_elements']
             out += [('no-atom-is-added', hs['positions'].length == N),
@@ -317,7 +341,8 @@ def _frame(S, mode='frame'):
         return v
     KEEP = AC.TABLES + ['cell']
     I.funcspecs['%s:%s' % (REL, FN)] = FuncSpec(loops=[
-        LoopSpec('(m_i, atom_positions) in enumerate(match_positions)', inv=inv, extra_modifies=('new_structure',), convert={'to_delete': empty_set},
+        LoopSpec('(m_i, atom_positions) in enumerate(match_positions)', inv=inv, extra_modifies=('new_structure',) + (('ghost_inserted',) if mode == 'atoms' else ()),
+                 convert={'to_delete': empty_set},
                  keep_attrs={'new_structure': KEEP})])
 
     def thunk():
@@ -359,6 +384,37 @@ def _frame(S, mode='frame'):
         I.assume(AM.all_in_range(cv, 0, NS, 'cvr'))
         I.reg.assumptions_used.add("requires: find_unchanged_atom_pairs(replace, search) is a partial injection (no two coincident same-element atoms in a pattern)")
         r2s = models_ext.input_map(I, ck, cv)
+        st.update(ck=ck, cv=cv)
+        if mode == 'atoms':
+            # requires of this clause: the selected matches do not overlap (C04 / C07), type ids are covered by the tables
+            j1, b = z3.Int('oj'), z3.Int('ob')
+            I.assume(z3.ForAll([j, j1, a, b], z3.Implies(z3.And(j >= 0, j < j1, j1 < M, a >= 0, a < NS, b >= 0, b < NS), ent(j, a) != ent(j1, b)),
+                               patterns=[z3.MultiPattern(ent(j, a), ent(j1, b))]))
+            I.reg.assumptions_used.add("requires (atom clause): the replaced matches share no atom")
+
+            def map_lemmas(ctx, hs, ho, keys, vals, memK, memV):
+                # the per-match map has the keys of the shared-atom map and sends key ck[t] to the matched atom at search position cv[t]
+                mi = ctx.lookup('m_i')
+                row = z3.Select(MI, to_z3(mi))
+                lt = z3.Int(I.reg.fresh('lt'))
+                rng = z3.And(lt >= 0, lt < L)
+                body = z3.And(z3.Select(keys.cols[0], lt) == z3.Select(ck.cols[0], lt), z3.Select(vals.cols[0], lt) == z3.Select(row, z3.Select(cv.cols[0], lt)))
+                I.oblige("%s/lemma/atoms/per-match-map-entries" % ctx.speckey, z3.And(keys.length == L, vals.length == L, z3.ForAll([lt], z3.Implies(rng, body))), 'lemma')
+                I.assume(z3.And(keys.length == L, vals.length == L))
+                for pat_ in ([z3.Select(ck.cols[0], lt)], [z3.Select(keys.cols[0], lt)], [z3.Select(vals.cols[0], lt)]):
+                    I.assume(z3.ForAll([lt], z3.Implies(rng, body), patterns=pat_))
+                xo = z3.Int(I.reg.fresh('xo'))
+                mem_ck_ = mem_of(I, ck)
+                l2 = z3.ForAll([xo], mem_ck_(xo) == memK(xo))
+                I.oblige("%s/lemma/atoms/per-match-map-has-the-keys-of-the-shared-atom-map" % ctx.speckey, l2, 'lemma')
+                I.assume(z3.ForAll([xo], mem_ck_(xo) == memK(xo), patterns=[memK(xo)]))
+                I.assume(z3.ForAll([xo], mem_ck_(xo) == memK(xo), patterns=[mem_ck_(xo)]))
+            st['extend_lemmas'] = map_lemmas
+
+            def record_origin(ctx, hs, ho, info):
+                G = ctx.lookup('ghost_inserted')
+                ctx.setvar_existing('ghost_inserted', models_np.np_append(ctx, [G, info['unmapped']], {}))
+            st['after_extend'] = record_origin
         if mode == 'self':
             # identical patterns: the shared-atom map is the identity on all atoms (proved in C08: find_unchanged_atom_pairs(P, P)); the pattern
             # carries no terms of its own (a pattern WITH terms adds them: C06); matched atoms have the pattern's elements (contract of the
@@ -398,6 +454,8 @@ def _frame(S, mode='frame'):
             st['extend_lemmas'] = extend_lemmas
         replace_all = z3.Bool('replace_all')
         mem_cv = mem_of(I, cv)
+        if mode in ('self', 'atoms'):
+            I.assume(z3.Not(replace_all))            # these clauses are about shared atoms being kept: replace_all is off (the block runs with False)
         removable = lambda a_: z3.Or(replace_all, z3.Not(mem_cv(a_)))
         # ghost definitions (conservative): pos(j, x) inverts the injective row j; Rm(j, x): x sits at a removable position of match j;
         # fm(x): the first match in which x is removable
@@ -411,11 +469,15 @@ def _frame(S, mode='frame'):
         st.update(MI=MI, NS=NS, M=M, removable=removable, Rm=Rm, fm=fm, pos=pos)
         ignore = z3.Bool('ignore_overlap')
         env = {'structure': structure, 'replace_pattern': pattern, 'match_indices': match_indices, 'match_positions': match_positions, 'quats': quats,
-               'replace2search_pattern_map': r2s, 'replace_all': (False if mode == 'self' else Sym(replace_all)), 'ignore_atoms_should_not_be_deleted_twice': Sym(ignore), 'verbose': False}
+               'replace2search_pattern_map': r2s, 'replace_all': (False if mode in ('self', 'atoms') else Sym(replace_all)), 'ignore_atoms_should_not_be_deleted_twice': Sym(ignore), 'verbose': False}
+        if mode == 'atoms':
+            env['ghost_inserted'] = SymSeq(N, [z3.K(INT, z3.IntVal(-1))], None, 'list', 'ghost_inserted')     # ghost: -1 = original atom
         ctx = I.block_ctx(REL, FN, env)
         ctx.exec_block(block)
         res = ctx.lookup('new_structure')
-        return structure, pattern, res, ctx.lookup('to_delete'), dict(MI=MI, NS=NS, M=M, removable=st['removable'], Rm=st['Rm'], fm=st['fm'], pos=st['pos'], structure0=dict(f), pattern0=dict(fp))
+        if mode == 'atoms':
+            st['ghost_final'] = ctx.lookup('ghost_inserted')
+        return structure, pattern, res, ctx.lookup('to_delete'), dict(MI=MI, NS=NS, M=M, removable=st['removable'], Rm=st['Rm'], fm=st['fm'], pos=st['pos'], structure0=dict(f), pattern0=dict(fp), ck=ck, cv=cv, L=L, ghost=st.get('ghost_final'), offsets=st.get('offsets'))
 
     paths = I.explore(thunk, max_paths=200)
     nret = 0
@@ -439,6 +501,38 @@ def _frame(S, mode='frame'):
         O = heap[structure.oid]
         s, x = z3.Int('qs'), z3.Int('qx')
         tag = "replace/frame"
+        if mode == 'atoms':
+            tag = "replace/atoms"
+            G, ck_, cv_, L_, offs = gh['ghost'], gh['ck'], gh['cv'], gh['L'], gh['offsets']
+            P0 = gh['pattern0']
+            off0 = to_z3(offs[0])
+            mem_ck_ = mem_of(I, ck_)
+            r, j2, t2, ty = z3.Int('pr'), z3.Int('pj'), z3.Int('pt'), z3.Int('pty')
+            lenB = base.length
+            g = z3.Select(G.cols[0], r)
+            S.add(I, "%s/inserted-atoms-carry-the-patterns-charge-group-and-type#%d" % (tag, pi), p.pc,
+                  z3.ForAll([r], z3.Implies(z3.And(r >= N, r < lenB), z3.And(
+                      z3.Not(D.pred(r)), dst(r) >= 0, dst(r) < R['positions'].length, g >= 0, g < P0['positions'].length, z3.Not(mem_ck_(g)),
+                      z3.Select(R['charges'].cols[0], dst(r)) == z3.Select(P0['charges'].cols[0], g),
+                      z3.Select(R['groups'].cols[0], dst(r)) == z3.Select(P0['groups'].cols[0], g),
+                      z3.Select(R['atom_types'].cols[0], dst(r)) == z3.Select(P0['atom_types'].cols[0], g) + off0))),
+                  clause='inserted atoms carry the charge, group and type of a replacement-only pattern atom')
+            ret = z3.Select(z3.Select(gh['MI'], j2), z3.Select(cv_.cols[0], t2))
+            S.add(I, "%s/atoms-taken-over-carry-the-type-of-their-pattern-atom#%d" % (tag, pi), p.pc,
+                  z3.ForAll([j2, t2], z3.Implies(z3.And(j2 >= 0, j2 < gh['M'], t2 >= 0, t2 < L_), z3.And(
+                      z3.Not(D.pred(ret)), dst(ret) >= 0, dst(ret) < R['positions'].length,
+                      z3.Select(R['atom_types'].cols[0], dst(ret)) == z3.Select(P0['atom_types'].cols[0], z3.Select(ck_.cols[0], t2)) + off0))),
+                  clause='atoms taken over from the pattern carry the type of their pattern atom')
+            tabs = []
+            for tname in ('atom_type_labels', 'atom_type_elements', 'atom_type_masses'):
+                tabs.append(z3.And(R[tname].length == O[tname].length + P0[tname].length,
+                                   z3.ForAll([ty], z3.Implies(z3.And(ty >= 0, ty < P0[tname].length),
+                                             z3.Select(R[tname].cols[0], O[tname].length + ty) == z3.Select(P0[tname].cols[0], ty)))))
+            S.add(I, "%s/pattern-type-plus-offset-resolves-to-the-patterns-label-element-mass#%d" % (tag, pi), p.pc,
+                  z3.And(off0 == O['atom_type_elements'].length, *tabs), clause='... and that type resolves to the pattern\'s type label, element and mass')
+            S.add_canary(I, "%s/canary#%d" % (tag, pi), [h for h in p.pc if not z3.is_quantifier(h)])
+            S.add_probe(I, "%s/probe/hypotheses-consistent#%d" % (tag, pi), p.pc)
+            continue
         if mode == 'self':
             tag = "replace/self"
             q = z3.Int('qq')
